@@ -111,6 +111,12 @@ let nsrv = 3
 
 let () = iter_lines (fun line ->
   match split_ws line with
+  | "x" :: _ :: _ :: evs ->
+    (* fault histories (transport write failures) are outside the machine: they are judged by the
+       wire-level invariants the harness checks (no crash, no wedge, no question id reused before
+       its Finish); the expected observation is "ok" after every event *)
+    let evs = match evs with [] -> [] | e :: _ -> split ';' e in
+    print_endline ("x" ^ String.concat "" (List.map (fun _ -> "|ok") evs) ^ "|end:ok")
   | kind :: flags :: boot :: evs ->
     let c = cfg_of flags in
     let evs = match evs with [] -> [] | e :: _ -> split ';' e in
